@@ -1,8 +1,24 @@
-"""C17 — simulation input export is complete and faithful (DESIGN.md 6.16)."""
-import json, copy, math
-from decimal import Decimal
+"""C17 — simulation input export is complete and faithful (DESIGN.md 6.16).
+
+Streams: spec validation (nearest_double / round_dbl against CPython, generated names), corpus, exhaustive-small,
+float-midpoints (many-digit Scalars beside float midpoints in every float field, all forms / prefixes, range ends),
+float-path (hdl21.sim.proto.export_float on single Prefixed values), random-valid, malformed.  Per case Coq evaluates the
+specification on the implementation's SimInput (every double against nearest_double), the symbolic model against it through the
+tree's float() table, and the model with computed float fields (Model/C17Float.v, round_dec) bit for bit.  Second-rounding
+coverage targets (Cover) are measured on the accepted calls and fail closed."""
+import json, copy, math, time
+from decimal import Decimal, Context
+from fractions import Fraction
 from . import core
-from .core import cz, copt, clist, cstr, cbool
+from .core import copt, clist, cstr, cbool
+
+
+def cz(z):
+    """Coq Z literal; long numbers in hexadecimal (Coq reads a decimal literal in quadratic time: 30 ms for 120 digits)"""
+    if abs(z) < 10 ** 18:
+        return core.cz(z)
+    return f"(-{hex(-z)})" if z < 0 else hex(z)
+
 
 IMPORTS = ("From Coq Require Import String Ascii.\n"
            "Require Import Hdl21.Base.PyInt Hdl21.Spec.SimSpec Hdl21.Model.SimExport Hdl21.Corr.C03 Hdl21.Corr.C17.\n"
@@ -341,9 +357,115 @@ def dec_me(d):
     return (-m if sign else m), exp
 
 
+# ------------------------------------------------------------------------------------------------
+# numbers that expose a second rounding: more than 28 significant digits, within 10^-29 .. 10^-60 (relative) of the
+# exact midpoint between two neighbouring doubles.  The double nearest to such a value is decided by digits that any
+# detour through a decimal context of finite precision (28 digits by default), a float product, or a shortened text
+# throws away.  Built from the float grid: a = M*2^E, b = (M+1)*2^E, mid = (2M+1)*2^(E-1) is a finite decimal.
+# ------------------------------------------------------------------------------------------------
+MID_FORMS = ["pre", "dmul", "smul", "dec", "str", "mul"]
+MID_K = [29, 29, 30, 31, 32, 33, 34, 35, 36, 38, 40, 40, 45, 50, 60]
+NATURAL = [1.0, 2.5e-9, 0.33, 750.0, 1e-12, 1e10, 3.3, 1e-3, 4.7e3, 0.1, 1e-15, 6.02e23, 5e-7, 2.0 ** 40, 2.0 ** -30, 123456.789]
+
+
+def midpoint_dec(M, E):
+    """exact midpoint of the doubles M*2^E and (M+1)*2^E as (coefficient, decimal exponent)"""
+    c, k2 = 2 * M + 1, E - 1
+    return (c << k2, 0) if k2 >= 0 else (c * 5 ** (-k2), k2)
+
+
+def float_ME(f):
+    m, ex = math.frexp(abs(f))
+    return int(m * (1 << 53)), ex - 53
+
+
+def near_mid(M, E, side, k):
+    """(m, e): the decimal mid + side * 10^q, q = (decade of mid) - k: relative distance ~10^-k from the midpoint"""
+    coef, exp = midpoint_dec(M, E)
+    q = len(str(coef)) - 1 + exp - k
+    e = min(q, exp)
+    return coef * 10 ** (exp - e) + side * 10 ** (q - e), e
+
+
+def mid_num(M, E, side, k, pe, form, neg=False):
+    m, e = near_mid(M, E, side, k)
+    if form in ("dec", "str"):
+        pe = 0
+    return ["pre", -m if neg else m, e - pe, pe, form]
+
+
+def gen_ME(r):
+    u = r.random()
+    if u < 0.35:
+        M, E = float_ME(r.choice(NATURAL) * r.choice([1, 1, 3, 7, 0.1]))
+    elif u < 0.5:
+        M, E = r.choice([2 ** 52, 2 ** 53 - 1, 2 ** 53 - 2, 2 ** 52 + 1]), r.randint(-110, 30)
+    else:
+        M, E = r.randint(2 ** 52, 2 ** 53 - 1), r.randint(-140, 40)
+    return M, E
+
+
+def gen_mid(r, forms=None, pe=None, side=None):
+    """a many-digit Scalar just beside a float midpoint, in one of the Scalar forms"""
+    form = r.choice(forms or MID_FORMS[:5])
+    if form == "mul":        # an int times a prefix: the value is an integer number of 10^pe, pe = -24 .. -1
+        M, E = r.randint(2 ** 52, 2 ** 53 - 1), r.randint(-14, 30)
+        k = r.choice([29, 30, 31, 32, 33])
+        m, e = near_mid(M, E, side or r.choice([1, -1]), k)
+        pes = [p for p in PREFIXES if p <= e] if pe is None else [pe]
+        pe = r.choice(pes)
+        assert e - pe >= 0, (M, E, k, pe)
+        return ["pre", m * 10 ** (e - pe), 0, pe, "mul"]
+    M, E = gen_ME(r)
+    return mid_num(M, E, side or r.choice([1, -1]), r.choice(MID_K), r.choice(PREFIXES) if pe is None else pe, form,
+                   neg=r.random() < 0.15)
+
+
+def exact_nearest(v):
+    """the double nearest to the Fraction v (CPython int / int is correctly rounded)"""
+    try:
+        return v.numerator / v.denominator
+    except OverflowError:
+        return math.inf if v > 0 else -math.inf
+
+
+CTX28 = Context(prec=28)
+
+
+def second_rounding(n, prec=28):
+    """properties of a numeric description that make a second rounding visible (measured, for the coverage targets):
+    digits = significant digits of the number; near = "above"/"below" when the value lies within 10^-28 (relative) of
+    the midpoint of two neighbouring doubles (on the far / near side of the midpoint, by magnitude); dr28 = evaluating
+    number * Decimal(10) ** prefix in the default 28-digit context and then float() gives another double than rounding once"""
+    _, nm, ne, pe = n[:4]
+    digits = len(str(abs(nm)).rstrip("0")) if nm else 1
+    v = Fraction(nm) * Fraction(10) ** (ne + pe)
+    f = exact_nearest(v)
+    near = None
+    if nm and f not in (math.inf, -math.inf) and f != 0.0:
+        F = Fraction(f)
+        for g in (math.nextafter(f, math.inf), math.nextafter(f, -math.inf)):
+            if g in (math.inf, -math.inf):
+                continue
+            mid = (F + Fraction(g)) / 2
+            if v != mid and abs(v - mid) * 10 ** 28 <= abs(mid):
+                near = "above" if abs(v) > abs(mid) else "below"
+    d = Decimal((1 if nm < 0 else 0, tuple(int(c) for c in str(abs(nm))), ne))
+    try:
+        f28 = float(Context(prec=prec).multiply(d, Context(prec=prec).power(Decimal(10), pe)))
+    except OverflowError:
+        f28 = math.inf if nm > 0 else -math.inf
+    end = None
+    if nm:
+        end = "overflow" if f in (math.inf, -math.inf) else "underflow" if f == 0.0 else "subnormal" if abs(f) < 2.0 ** -1022 else None
+    return dict(digits=digits, near=near, dr28=(f28 != f), end=end)
+
+
 def gen_num(r, allow_lit=0.0, small=False):
     if r.random() < allow_lit:
         return ["lit", r.choice(["w/5", "vdd*2", "1n", "tstop", "{x}"]), r.choice(["lit", "str"])]
+    if r.random() < 0.12:
+        return gen_mid(r, forms=MID_FORMS)
     form = r.choice(["int", "float", "str", "dec", "pre", "mul", "float", "pre"])
     if form == "int":
         return ["pre", r.choice([0, 1, 2, 5, 10, 11, 1000, r.randint(-50, 50), r.randint(0, 10 ** 12)]), 0, 0, "int"]
@@ -701,6 +823,162 @@ def malformed(r, n):
 
 
 # ------------------------------------------------------------------------------------------------
+# float fields: positions, the dedicated midpoint stream, coverage targets
+# ------------------------------------------------------------------------------------------------
+SWEEP_FIELDS = ["lin.start", "lin.stop", "lin.step", "log.start", "log.stop", "pts.point"]
+FLOAT_FIELDS = (["tran.tstop", "tran.tstep", "ac.fstart", "ac.fstop", "noise.fstart", "noise.fstop"]
+                + ["dc." + f for f in SWEEP_FIELDS] + ["sweep." + f for f in SWEEP_FIELDS])
+
+
+def sweep_fields(s, owner):
+    if s[0] == "lin":
+        return [(f"{owner}.lin.start", s[1]), (f"{owner}.lin.stop", s[2]), (f"{owner}.lin.step", s[3])]
+    if s[0] == "log":
+        return [(f"{owner}.log.start", s[1]), (f"{owner}.log.stop", s[2])]
+    return [(f"{owner}.pts.point", x) for x in s[1]]
+
+
+def float_fields(a, depth=0):
+    """(field label, nesting depth, numeric description) of every float field of an analysis description"""
+    t = a[0]
+    if t == "tran":
+        return [("tran.tstop", depth, a[1])] + ([("tran.tstep", depth, a[2])] if a[2] is not None else [])
+    if t == "ac":
+        return [("ac.fstart", depth, a[1]), ("ac.fstop", depth, a[2])]
+    if t == "noise":
+        return [("noise.fstart", depth, a[3]), ("noise.fstop", depth, a[4])]
+    if t == "dc":
+        return [(l, depth, x) for l, x in sweep_fields(a[2], "dc")]
+    if t == "sweep":
+        return [(l, depth, x) for l, x in sweep_fields(a[3], "sweep")] + [y for x in a[1] for y in float_fields(x, depth + 1)]
+    if t == "monte":
+        return [y for x in a[1] for y in float_fields(x, depth + 1)]
+    return []
+
+
+def place(field, x):
+    """an analysis description that carries the number x in the float field `field`"""
+    own, _, sub = field.partition(".")
+    if own in ("dc", "sweep"):
+        sw = {"lin.start": ["lin", x, N1, N1], "lin.stop": ["lin", N1, x, N1], "lin.step": ["lin", N1, N11P, x],
+              "log.start": ["log", x, N1, 10], "log.stop": ["log", N1, x, 10], "pts.point": ["pts", [N1, x, N11P]]}[sub]
+        return ["dc", ["s", "x"], sw, None] if own == "dc" else ["sweep", [["op", None]], ["s", "x"], sw, None]
+    return {"tran.tstop": ["tran", x, None, None], "tran.tstep": ["tran", N1, x, None],
+            "ac.fstart": ["ac", x, N1, 10, None], "ac.fstop": ["ac", N1, x, 10, None],
+            "noise.fstart": ["noise", ["conn", "out"], ["inst", "vin"], x, N1, 5, None],
+            "noise.fstop": ["noise", ["str", "out"], ["str", "vin"], N1, x, 5, None]}[field]
+
+
+def nest(a, ctx):
+    for c in reversed(ctx):
+        a = ["sweep", [["op", None], a], ["s", "y"], ["pts", [N1]], None] if c == "s" else ["monte", [a, ["op", "last"]], 3, None]
+    return a
+
+
+def midpoint_cases(seed):
+    """every float field x nesting context x side of the midpoint, the value in rotating forms / prefixes; then every
+    prefix x prefixed form x side on one field; then whole Sims in which every float field carries such a value"""
+    c, i = [], 0
+    styles = ["proc", "add", "class"]
+    for field in FLOAT_FIELDS:
+        for ctx in ("", "s", "m", "ms", "sm"):
+            for side in (1, -1):
+                for rep in range(2):
+                    r = core.rng(seed, "C17", "midpoint", i)
+                    form = MID_FORMS[i % len(MID_FORMS)]
+                    x = gen_mid(r, forms=[form], side=side)
+                    c.append(one(styles[i % 3], [["an", nest(place(field, x), ctx)]]))
+                    i += 1
+    for pe in PREFIXES:
+        for form in ("pre", "dmul", "smul"):
+            for side in (1, -1):
+                r = core.rng(seed, "C17", "midpoint", i)
+                x = gen_mid(r, forms=[form], pe=pe, side=side)
+                c.append(one(styles[i % 3], [["an", place(FLOAT_FIELDS[i % len(FLOAT_FIELDS)], x)]]))
+                i += 1
+    # the ends of the range: beside the overflow threshold (midpoint of the largest double and 2^1024), beside the midpoints
+    # of the smallest subnormals (0 | 2^-1074 | 2^-1073), at the subnormal / normal border, far beyond both ends
+    j = 0
+    for M, E in [(2 ** 53 - 1, 971), (0, -1074), (1, -1074), (2 ** 52 - 1, -1074), (2 ** 52, -1074)]:
+        for side in (1, -1):
+            form, pe = [("pre", 24 if E > 0 else -24), ("dec", 0), ("str", 0), ("dmul", 3 if E > 0 else -3)][j % 4]
+            x = mid_num(M, E, side, [29, 33, 40][j % 3], pe, form, neg=(j % 5 == 4))
+            c.append(one(styles[j % 3], [["an", place(FLOAT_FIELDS[j % len(FLOAT_FIELDS)], x)]]))
+            j += 1
+    for x in (["pre", 1, 400, 0, "dec"], ["pre", -1, 400, 0, "str"], ["pre", 1, -400, 0, "dec"], ["pre", 17, 300, 9, "pre"], ["pre", 3, -330, -15, "dmul"]):
+        c.append(one(styles[j % 3], [["an", place(FLOAT_FIELDS[j % len(FLOAT_FIELDS)], x)]]))
+        j += 1
+    for j, form in enumerate(MID_FORMS * 2):          # the same many-digit values as Param / Options values (exact decimals)
+        r = core.rng(seed, "C17", "midpoint-param", j)
+        x = gen_mid(r, forms=[form])
+        c.append(one(styles[j % 3], [["p", ["param", "x", x]]] if j % 2 else [["o", ["options", "reltol", x]]]))
+    for j in range(24):
+        r = core.rng(seed, "C17", "midpoint-all", j)
+        g = lambda: gen_mid(r, forms=MID_FORMS)
+        items = [["t", ["tran", g(), g(), None]], ["a", ["ac", g(), g(), 10, None]],
+                 ["n", ["noise", ["conn", "out"], ["inst", "vin"], g(), g(), 5, None]],
+                 ["d", ["dc", ["s", "x"], ["lin", g(), g(), g()], None]],
+                 ["s", ["sweep", [["tran", g(), g(), None], ["monte", [["dc", ["s", "y"], ["pts", [g(), g()]], None]], 2, None]],
+                        ["s", "x"], ["log", g(), g(), 7], None]],
+                 ["p", ["param", "x", g()]], ["o", ["options", "reltol", g()]]]
+        c.append(one(styles[j % 3], items))
+    return c
+
+
+class Cover:
+    """second-rounding coverage of the float fields that were really exported and compared (accepted calls only)"""
+
+    def __init__(self):
+        self.field = {f"{f}@{d}:{sd}": 0 for f in FLOAT_FIELDS for d in ("top", "nested") for sd in ("above", "below")}
+        self.form = {f: 0 for f in MID_FORMS}
+        self.prefix = {str(p): 0 for p in PREFIXES}
+        self.dr28 = 0
+        self.ends = dict(overflow=0, subnormal=0, underflow=0)
+        self.near = 0
+        self.long = 0
+        self.fields = 0
+        self._memo = {}
+
+    def props(self, n):
+        k = json.dumps(n[:4])
+        if k not in self._memo:
+            self._memo[k] = second_rounding(n)
+        return self._memo[k]
+
+    def add(self, cases, outs):
+        for case, o in zip(cases, outs):
+            if o["out"] is None:
+                continue
+            for s in case["sims"]:
+                for _, a in s["items"]:
+                    if a[0] not in ANALYSES:
+                        continue
+                    for label, depth, n in float_fields(a):
+                        if n[0] != "pre":
+                            continue
+                        self.fields += 1
+                        pr = self.props(n)
+                        self.long += pr["digits"] > 28
+                        if pr["end"]:
+                            self.ends[pr["end"]] += 1
+                        if pr["digits"] > 28 and pr["near"]:
+                            self.near += 1
+                            self.dr28 += pr["dr28"]
+                            self.field[f"{label}@{'top' if depth == 0 else 'nested'}:{pr['near']}"] += 1
+                            if len(n) > 4 and n[4] in self.form:
+                                self.form[n[4]] += 1
+                            self.prefix[str(n[3])] += 1
+
+    def targets(self):
+        t = dict(self.field)
+        t.update({f"form:{k}": v for k, v in self.form.items()})
+        t.update({f"prefix:{k}": v for k, v in self.prefix.items()})
+        t["dr28-sensitive-fields"] = self.dr28
+        t.update({f"range-end:{k}": v for k, v in self.ends.items()})
+        return t
+
+
+# ------------------------------------------------------------------------------------------------
 # sizes, classification
 # ------------------------------------------------------------------------------------------------
 def n_attrs(a):
@@ -728,8 +1006,11 @@ def eval_stream(run, name, cases, chunk=150):
     outs = core.run_worker_sharded("c17", cases, common=dict(kind="case"))
     strs = [c_case(c, o) for c, o in zip(cases, outs)]
     fname = name.replace("-", "_")
-    bad = core.coq_eval_cases("C17", fname, IMPORTS, "main_case", strs, "run_cases chk_main", chunk=chunk)
-    rnd = core.coq_eval_cases("C17", fname + "_round", IMPORTS, "main_case", strs, "run_cases chk_round", chunk=chunk)
+    # one pass per case file: code = chk_main + 4 * chk_round (parsing the cases dominates); chunks sized to occupy all workers
+    chunk = min(chunk, max(20, -(-len(strs) // (2 * core.NPROC))))
+    both = core.coq_eval_cases("C17", fname, IMPORTS, "main_case", strs, "run_cases chk_both", chunk=chunk)
+    bad = [(i, c % 4) for i, c in both if c % 4]
+    rnd = [(i, c // 4) for i, c in both if c // 4]
     return outs, bad, rnd
 
 
@@ -785,9 +1066,14 @@ def run(run, tier, seed, replay=None):
     py_round = 0
     all_cases = 0
 
+    cover = Cover()
+
     def do(name, cases, **extra):
         nonlocal total_round, py_round, all_cases
+        t0 = time.time()
         outs, bad, rnd = eval_stream(run, name, cases)
+        extra["wall_s"] = round(time.time() - t0, 1)
+        cover.add(cases, outs)
         coq_cnt = sum(c for _, c in rnd)
         py_cnt = sum(1 for o in outs for e in o["ftab"] if not e[3])
         total_round += coq_cnt
@@ -801,6 +1087,44 @@ def run(run, tier, seed, replay=None):
                           f"non-nearest float fields in stream {name}", dict(kind="spec-validation", stream=name), found_input=False)
         return outs
 
+    def do_fpath(name, nums):
+        t0 = time.time()
+        fouts = core.run_worker_sharded("c17", nums, common=dict(kind="fpath"))
+        fstrs = []
+        for n, o in zip(nums, fouts):
+            rd, dc = o["read"], o["dec"]
+            if Fraction(rd[0]) * Fraction(10) ** (rd[1] + rd[2]) != Fraction(n[1]) * Fraction(10) ** (n[2] + n[3]):
+                raise RuntimeError(f"harness: {n} was built as {rd}")
+            fstrs.append(f"({cz(rd[0])}, {cz(rd[1])}, {cz(rd[2])}, ({cbool(dc[0])}, {cz(dc[1])}, {cz(dc[2])}), {copt(o['out'], c_dbl)})")
+        both = core.coq_eval_cases("C17", name.replace("-", "_"), IMPORTS, "fpath_case", fstrs, "run_cases chk_fpath_both",
+                                   chunk=max(50, -(-len(fstrs) // (2 * core.NPROC))))
+        fbad = sorted([(i, c % 4) for i, c in both if c % 4], key=lambda t: (len(json.dumps(nums[t[0]])), t[0]))
+        props = [second_rounding(n) for n in nums]
+        run.stream(name, len(nums), len({json.dumps(n[:4]) for n in nums if n[1] != 0}),
+                   rule="hdl21.sim.proto.export_float on one Prefixed: the Decimal handed to float() digit for digit against the model, the double "
+                        "against nearest_double; non-trivial = non-zero; distinct by (number, prefix)",
+                   over_28_digits=sum(1 for p_ in props if p_["digits"] > 28),
+                   beside_midpoint_over_28_digits=sum(1 for p_ in props if p_["digits"] > 28 and p_["near"]),
+                   changed_by_a_28_digit_detour=sum(1 for p_ in props if p_["dr28"]),
+                   results_matching_a_28_digit_detour=sum(1 for _, c in both if c // 4), wall_s=round(time.time() - t0, 1))
+        v1 = [i for i, c in fbad if c == 1]
+        if v1:
+            i = v1[0]
+            run.violation(f"C17:export_float:{json.dumps(nums[i])}",
+                          f"export_float({json.dumps(nums[i])}) = {fouts[i]['out']} is not the double nearest to the prefixed value "
+                          f"({len(v1)} such values; {sum(1 for _, c in both if c // 4)} results are what a 28-digit decimal context gives)",
+                          dict(kind="impl-violates-spec", stream="float-path", num=nums[i], impl=fouts[i], failing_cases=len(v1),
+                               reproducer="harness/impl/c17.py do_fpath(num): hdl21.sim.proto.export_float(Prefixed)"))
+        elif fbad:
+            i = fbad[0][0]
+            run.violation("C17:float-path:tie", f"model of Prefixed.__float__ / export_float and implementation differ on {json.dumps(nums[i])}: {fouts[i]}",
+                          dict(kind="correspondence-broken", stream="float-path", num=nums[i], impl=fouts[i], disagreeing_cases=len(fbad),
+                               theorem="C17_export_float_one_rounding"), found_input=False)
+        run.sample(dict(stream=name, case=nums[0], impl=fouts[0]))
+
+    if replay is not None and replay.get("num"):
+        do_fpath("replay", [replay["num"]])
+        return
     if replay is not None and replay.get("case"):
         outs = do("replay", [replay["case"]])
         run.sample(dict(stream="replay", case=replay["case"], impl=outs[0]))
@@ -815,6 +1139,15 @@ def run(run, tier, seed, replay=None):
     for f in FLOATS:
         m, e = dec_me(Decimal(repr(f)))
         jobs.append([m, e])
+    # many-digit decimals just beside a midpoint (the values of the midpoint stream), incl. subnormal neighbours
+    for M, E in [(2 ** 52, -52), (2 ** 53 - 1, -53), (1, -1074), (2 ** 52 - 1, -1074), (2 ** 52, -1074), (2 ** 53 - 1, 970), (2 ** 53 - 2, 971)]:
+        for side in (1, -1):
+            jobs.append(list(near_mid(M, E, side, 40)))
+    for k in range(60 if quick else 1500):
+        rr = core.rng(seed, "C17", "near-mid", k)
+        M, E = gen_ME(rr)
+        m, e = near_mid(M, E, rr.choice([1, -1]), rr.choice(MID_K))
+        jobs.append([-m if rr.random() < 0.2 else m, e])
     while len(jobs) < n_near:
         u = r.random()
         if u < 0.4:
@@ -840,7 +1173,8 @@ def run(run, tier, seed, replay=None):
     bad = core.coq_eval_cases("C17", "near", IMPORTS, "near_case", ncases, "run_cases chk_near", chunk=1500)
     run.stream("spec-nearest-double-vs-cpython", len(ncases), len({json.dumps(k[0]) for k in nkeys if k[0][0] != 0}),
                rule="decimal m*10^e against the correctly rounded double (int/int division of fractions.Fraction) and its two neighbours; non-trivial = m != 0",
-               decimals=len(jobs), midpoints=sum(1 for j in jobs if j[1] <= 0 and j[0] % 2 == 1 and abs(j[0]) > 2 ** 52))
+               decimals=len(jobs), midpoints=sum(1 for j in jobs if j[1] <= 0 and j[0] % 2 == 1 and abs(j[0]) > 2 ** 52),
+               beside_midpoint_over_28_digits=sum(1 for j in jobs if (lambda p: p["digits"] > 28 and p["near"] is not None)(second_rounding(["pre", j[0], j[1], 0]))))
     for i, code in bad[:1]:
         run.violation("C17:spec-validation:near", f"nearest_double disagrees with CPython on {nkeys[i]}",
                       dict(kind="spec-validation", stream="near", case=list(nkeys[i])), found_input=False)
@@ -863,6 +1197,28 @@ def run(run, tier, seed, replay=None):
     outs = do("exhaustive-small", cs, exhaustive=True,
               box="every SaveTarget form, analysis kind x sweep kind x naming, control kind, scalar form, testbench shape; each in the 3 construction styles")
     run.sample(dict(stream="exhaustive-small", case=cs[5], impl=outs[5]))
+    # ---------------------------------------------------------------- float fields beside a midpoint (second roundings)
+    cs = midpoint_cases(seed)
+    if not quick:
+        cs += [c for k in range(1, 6) for c in midpoint_cases(seed * 1000 + 500 + k)]
+    outs = do("float-midpoints", cs,
+              box="each of the 18 float fields x nesting context (top, in sweep, in Monte-Carlo, both orders) x side of the midpoint, "
+                  "Scalar forms rotating; each prefix x prefixed form x side; whole Sims with such a value in every float field")
+    run.sample(dict(stream="float-midpoints", case=cs[0], impl=outs[0]))
+    # ---------------------------------------------------------------- the float path itself: export_float on single Prefixed values
+    nums, seen = [], set()
+    for c in cs + corpus() + exhaustive_small():
+        for s_ in c["sims"]:
+            for _, a in s_["items"]:
+                if a[0] in ANALYSES:
+                    for _, _, n in float_fields(a):
+                        k = json.dumps(n)
+                        if n[0] == "pre" and k not in seen:
+                            seen.add(k)
+                            nums.append(n)
+    for k in range(300 if quick else 6000):
+        nums.append(gen_num(core.rng(seed, "C17", "fpath", k)))
+    do_fpath("float-path", nums)
     # ---------------------------------------------------------------- structured random (valid inputs)
     n_rand = 700 if quick else 16000
     cs = [gen_case(core.rng(seed, "C17", "random", k), k) for k in range(n_rand)]
@@ -875,6 +1231,18 @@ def run(run, tier, seed, replay=None):
     outs = do("malformed", cs)
     run.sample(dict(stream="malformed", case=cs[0], impl=outs[0]))
     run.coverage["traces_validated_against_impl"] = all_cases
+    # ---------------------------------------------------------------- coverage targets of the strengthening round (fail closed)
+    tg = cover.targets()
+    run.coverage["second_rounding_targets"] = tg
+    run.coverage["second_rounding_summary"] = dict(
+        float_fields_compared=cover.fields, over_28_digits=cover.long, beside_midpoint_over_28_digits=cover.near,
+        of_these_changed_by_a_28_digit_detour=cover.dr28,
+        rule="a float field of an accepted call whose Scalar has more than 28 significant digits and lies within 1e-28 (relative) of the "
+             "midpoint of two neighbouring doubles; counted per field x (top / nested) x side of the midpoint, per Scalar form, per prefix")
+    for t, cnt in tg.items():
+        if cnt == 0:
+            run.violation(f"C17:coverage:{t}", f"generator coverage target missed: no exported float field beside a midpoint for {t}",
+                          dict(kind="coverage"), found_input=False)
     run.coverage["float_double_rounding_cases"] = total_round
     run.coverage["float_double_rounding_note"] = ("number of float() results of the tree under test (per case, distinct values) that are not the double "
                                                   "nearest to the exact decimal; a float field carrying such a value is a violation of the property")
